@@ -740,6 +740,22 @@ func (w *Walker) FactsAt(fr *Frame, site ssa.Instruction) []FactT {
 				add(ft)
 			}
 		}
+		// a step of a first-error list runs only when the steps before it returned nil
+		if ci := firstErrorStep(f); ci != nil && f.MC != nil && f.Via != nil && !ci.Common().IsInvoke() && ci.Common().StaticCallee() != nil {
+			args := ci.Common().Args
+			if len(args) > 0 {
+				for _, e := range variadicElems(args[len(args)-1]) {
+					if e == ssa.Value(f.MC) {
+						break
+					}
+					if mc, ok := e.(*ssa.MakeClosure); ok && mc.Parent() == f.Via.Fn {
+						for _, ft := range w.closureStepFacts(f.Via, mc, 1) {
+							add(ft)
+						}
+					}
+				}
+			}
+		}
 		// entered through an interface call: what the dynamic type of the value implies
 		if rf, _ := w.recvTypeFacts(f); len(rf) > 0 {
 			for _, ft := range rf {
